@@ -82,6 +82,17 @@ def catalogue():
     ]
 
 
+# violations of stated kinds that the Lean stack grammar cannot express (scalars that are not arithmetic types): the expected
+# verdict is fixed here, not asked of the model
+RAW = [
+    ("identity:assert2 scalar not constructible from itself",
+     "struct nocopy { nocopy() = default; nocopy(const nocopy &) = delete; nocopy(float) {} operator float() const { return 0.f; } };\n"
+     "using B = covfie::backend::identity<covfie::vector::vector_d<nocopy, 2>>;\n"
+     "static_assert(covfie::concepts::field_backend<B>);\nusing O = typename B::owning_data_t;\n",
+     r"Identity backend requires type of input to be convertible"),
+]
+
+
 def conv_negative():
     """(name, dst, src): conversions between compositions that are not compatible must be rejected"""
     M = lambda l, sk, n, arr=A3: K.St(l, (sk, n), arr)
@@ -239,7 +250,7 @@ def case_dict(s, op, src=None, expect=None):
     return {"stack": s.desc(), "op": op, "src": src.desc() if src else None, "expect": expect, "cpp": s.cpp()}
 
 
-def evaluate(ctx, accept, rejects, convs, conv_neg, verdict, sizeof=True, notes=()):
+def evaluate(ctx, accept, rejects, convs, conv_neg, verdict, sizeof=True, notes=(), raw=()):
     """accept: stacks the model accepts for every operation; rejects: (name, stack) whose per-operation verdicts come from
     the model; convs: (dst, src) compatible pairs; conv_neg: (name, dst, src)"""
     corr = Corr()
@@ -338,6 +349,20 @@ def evaluate(ctx, accept, rejects, convs, conv_neg, verdict, sizeof=True, notes=
     res3 = compile_tus(ctx, [K.tu(s, [(op, src)]) for _, s, op, src, _, _ in items], "rej")
     for (name, s, op, src, want, why), (ok, diag, err) in zip(items, res3):
         record(corr, s, op, src, want, ok, diag, verdict, tu=K.tu(s, [(op, src)]), err=err, why=why, name=name, measured=measured)
+    # ---- 3. raw catalogue entries (outside the Lean grammar)
+    if raw:
+        res4 = compile_tus(ctx, [K.HDR + body for _, body, _ in raw], "raw")
+        for (name, body, rx), (ok, diag, err) in zip(raw, res4):
+            corr.configs["syntax"] += 1
+            corr.case(("raw", name), True)
+            corr.dist["raw(no Lean model)/concept/reject"] += 1
+            good = (not ok) and re.search(rx, diag + err) is not None
+            corr.add_obl("compile_matrix", 1, 0 if good else 1)
+            if not good:
+                corr.violation("compile_matrix", f"catalogue entry `{name}` " + ("is accepted by the compiler" if ok else
+                               "is rejected, but not by the static_assert it violates: " + diag),
+                               {"stack": "raw " + name, "op": "concept", "raw": name, "tu": K.HDR + body, "diagnostic": err}, impl="accepted" if ok else diag,
+                               model="rejected (fixed expectation)", oracle_fails=ok, key={"kind": "raw", "name": name}, cfg="syntax")
     corr.violations.sort(key=lambda v: (not v["oracle_fails"], len(v["case"]["stack"].split()), v["case"].get("op", "")))
     return corr
 
@@ -459,21 +484,24 @@ def run(ctx):
     g = gen(ctx)
     cat = catalogue()
     rejects = cat + [("auto:" + s.label(), s) for s in g["autos"]]
-    corr = evaluate(ctx, g["accept"], rejects, g["convs"], conv_negative(), g["verdict"], notes=g["notes"])
+    corr = evaluate(ctx, g["accept"], rejects, g["convs"], conv_negative(), g["verdict"], notes=g["notes"], raw=RAW)
     corr.info["stacks_accept"] = len(g["accept"])
     corr.info["stacks_reject_catalogue"] = len(cat)
     corr.info["stacks_reject_auto"] = len(g["autos"])
     corr.info["conversion_pairs"] = len(g["convs"])
     if not ctx.quick:
         cuda_subcheck(ctx, corr)
-    corr.notes.append("catalogue gaps: identity's two static_asserts and linear's is_object assert cannot be violated by any vector_d "
-                      "of arithmetic scalars (input and output descriptor are the same type); scalar_d's size==1 assert is unreachable "
-                      "through backend::array; they have no catalogue entry")
+    corr.notes.append("catalogue gaps: identity's first static_assert (equal dimensions) and linear's is_object assert cannot be violated by any "
+                      "instantiation (input and output descriptor are the same type / the output is always an array type); scalar_d's "
+                      "size==1 assert is unreachable through backend::array; identity's second assert needs a non-arithmetic scalar and is "
+                      "checked by a fixed catalogue entry outside the Lean grammar")
     return corr
 
 
 def replay(ctx):
     c = ctx.replay["case"]
+    if c.get("raw"):
+        return evaluate(ctx, [], [], [], [], {}, sizeof=False, raw=[r for r in RAW if r[0] == c["raw"]])
     s = K.parse_desc(c["stack"].split())
     verdict = {}
     if c.get("op") == "sizeof":
